@@ -105,6 +105,86 @@ type Type struct {
 	PassesTrail []string     `json:",omitempty"`
 }
 
+// Validate checks that a type is well-formed: its kind is known and the
+// definition that kind requires is present, recursively. Types built by the
+// parsers always are; types written by hand in configuration files may not be.
+func (t Type) Validate() error {
+	missing := func() error {
+		return fmt.Errorf("type of kind '%s' is missing its '%s' definition", t.Kind, t.Kind)
+	}
+	validateAll := func(types []Type) error {
+		for _, inner := range types {
+			if err := inner.Validate(); err != nil {
+				return err
+			}
+		}
+		return nil
+	}
+
+	switch t.Kind {
+	case KindDisjunction:
+		if t.Disjunction == nil {
+			return missing()
+		}
+		return validateAll(t.Disjunction.Branches)
+	case KindIntersection:
+		if t.Intersection == nil {
+			return missing()
+		}
+		return validateAll(t.Intersection.Branches)
+	case KindArray:
+		if t.Array == nil {
+			return missing()
+		}
+		return t.Array.ValueType.Validate()
+	case KindMap:
+		if t.Map == nil {
+			return missing()
+		}
+		return validateAll([]Type{t.Map.IndexType, t.Map.ValueType})
+	case KindStruct:
+		if t.Struct == nil {
+			return missing()
+		}
+		for _, field := range t.Struct.Fields {
+			if err := field.Type.Validate(); err != nil {
+				return fmt.Errorf("field '%s': %w", field.Name, err)
+			}
+		}
+		return nil
+	case KindEnum:
+		if t.Enum == nil {
+			return missing()
+		}
+		for _, value := range t.Enum.Values {
+			if err := value.Type.Validate(); err != nil {
+				return fmt.Errorf("enum value '%s': %w", value.Name, err)
+			}
+		}
+		return nil
+	case KindRef:
+		if t.Ref == nil {
+			return missing()
+		}
+	case KindConstantRef:
+		if t.ConstantReference == nil {
+			return missing()
+		}
+	case KindScalar:
+		if t.Scalar == nil {
+			return missing()
+		}
+	case KindComposableSlot:
+		if t.ComposableSlot == nil {
+			return missing()
+		}
+	default:
+		return fmt.Errorf("unknown type kind '%s'", t.Kind)
+	}
+
+	return nil
+}
+
 func (t *Type) AcceptsValue(value any) bool {
 	if t.Disjunction != nil {
 		return t.Disjunction.AcceptsValue(value)
